@@ -474,6 +474,18 @@ def c09(v):
     return V
 
 
+def c09_same_rules(v):
+    """until then forever jobs start under the same requirement and window rules as any job: the eagerness clause of
+    C12, read for forever jobs"""
+    V = []
+    for c in c12(v):
+        parts = c.split(" ")
+        # "C12 at t=.. job <name> of <s> is eligible ..."
+        if len(parts) > 4 and parts[3] == "job" and v.info.get(parts[4], {}).get("forever"):
+            V.append("C09 forever job %s is not started under the same rules as any job: %s" % (parts[4], c[4:]))
+    return V
+
+
 def c09_no_early_cancel(v):
     """until the run has a reason to end, forever jobs are treated like any job: none is cancelled"""
     V = []
@@ -750,7 +762,7 @@ def c14(v):
 
 
 SINGLE = {"C01": c01, "C02": c02, "C03": c03, "C04": c04, "C05": c05, "C07": c07, "C08": c08,
-          "C09": lambda v: c09(v) + c09_no_early_cancel(v),
+          "C09": lambda v: c09(v) + c09_no_early_cancel(v) + c09_same_rules(v),
           "C10": c10_single, "C11": c11, "C12": c12, "C13": c13, "C14": c14}
 
 
